@@ -361,6 +361,13 @@ func runC08Light(c *run.Ctx) {
 	r := c.Res
 	g := c.R("light")
 	w, fam := c08World(g, g.Intn(3)*0) // NetworkPolicy family (exposure capable)
+	admin := c.Idx%6 == 5
+	if admin {
+		// every sixth case: an admin-policy world (no exposure runs), its second copy always with the peers and the ports inside each
+		// rule permuted - the order of the entries of one ports list means nothing
+		w, fam = c08World(c.R("light-admin"), 1)
+		r.Ev("light_admin_policy_inputs", 1)
+	}
 	if g.P(0.6) {
 		world.AddCanonStress(g, w)
 	}
@@ -374,7 +381,7 @@ func runC08Light(c *run.Ctx) {
 	r.Ev("light_inputs", 1)
 	dirs := []string{c.Dir("canonical"), c.Dir("perdoc")}
 	w2 := w
-	if c.Idx%2 == 1 { // every other case: the second copy also has its NetworkPolicy rules and the peers inside each rule permuted
+	if c.Idx%2 == 1 || admin { // every other case: the second copy also has its NetworkPolicy rules and the peers inside each rule permuted
 		w2 = world.PermuteUnordered(c.R("permute"), w)
 		r.Feat("light_rules_and_peers_permuted")
 	}
@@ -391,7 +398,10 @@ func runC08Light(c *run.Ctx) {
 		for _, dir := range dirs {
 			for _, exp := range []bool{false, true} {
 				for _, f := range []string{"txt", "json", extra} {
-					if !exp && f != "txt" {
+					if !exp && f != "txt" && !admin {
+						continue
+					}
+					if exp && admin {
 						continue
 					}
 					res := observe.List(dir, observe.ListOpts{Format: f, Exposure: exp})
